@@ -411,7 +411,8 @@ fn run_exhaustive(unit: &str, authorized: bool, ch: usize, len: usize, first: st
 
 pub struct C06;
 
-pub const NCH: usize = 8;
+/// acknowledgements, the protocol-hash trigger and the seven client events / triggers of the pool (the payload-less trigger last)
+pub const NCH: usize = 9;
 
 impl Prop for C06 {
     fn id(&self) -> &'static str {
@@ -427,7 +428,8 @@ impl Prop for C06 {
         }
         if !q {
             // length 3 on the acknowledgement channel, the first event channel, the protocol-hash trigger channel and the
-            // channel of the event with length-prefixed collections
+            // channel of the event with length-prefixed collections (the payload-less trigger's channel is covered up to length 2
+            // and by the mutation layer: a fifth channel here would push the 16 workers' memory past what this machine has)
             for auth in [false, true] {
                 for ch in [0usize, 1, 6, 7] {
                     for k in 0..16u32 {
